@@ -12,8 +12,8 @@ META = {
     "assumptions": [],
 }
 OPQ = {"schar": 8, "bool": 8, "short": 16, "uint": 32, "long": 64, "ullong": 64, "enum": 32, "float": 32, "double": 64, "intp": 64, "voidp": 64, "vs24p": 64}
-SC = {"short_int": (C.SHORT, C.INT), "uchar_long": (C.UCHAR, C.LONG), "llong_int": (C.LLONG, C.INT), "uint_llong": (C.UINT, C.LLONG),
-      "long_ushort": (C.LONG, C.USHORT), "int_uint": (C.INT, C.UINT), "schar_ullong": (C.SCHAR, C.ULLONG)}
+SC_TYPES = [C.SCHAR, C.UCHAR, C.SHORT, C.USHORT, C.INT, C.UINT, C.LONG, C.ULONG, C.LLONG, C.ULLONG]
+SC = {"%s_%s" % (a.tag, b.tag): (a, b) for a in SC_TYPES for b in SC_TYPES}     # every ordered (target, source) pair
 
 
 def check_opq(ctx, tag):
@@ -131,6 +131,27 @@ def check_enum(ctx, k):
     ctx.expect(paths, ret=1)
 
 
+def check_cb_fp(ctx):
+    ctx.eng.max_strlen = 64
+    opq = ctx.sym("opaque", 32)
+    a = ctx.sym("a", 64)
+    b = ctx.sym("b", 32)
+    c = ctx.sym("c", 32)
+    ctx.assume(z3.ULE(opq, 1))
+    paths = ctx.run("k_cb_opaque_fp", [opq, a, b, c])
+    for q in paths:
+        if q.status == "ret":
+            lg = [e for e in (q.user.get("log") or []) if e[0] == 20]
+            env = [v for (t, v) in (q.user.get("env") or []) if t == 21]
+            bvx = lambda v: v if not isinstance(v, int) else BV(v, 64)
+            ctx.require(q, z3.And(z3.BoolVal(len(lg) == 1 and len(env) == 1), bvx(lg[0][1]) == a, bvx(lg[0][2]) == sext(b, 64), z3.Extract(31, 0, bvx(lg[0][3])) == c, q.ret == env[0])
+                        if lg and env else z3.BoolVal(False),
+                        "a callback declared with opaque parameters/result receives and returns exactly the bits the tainted-typed callback does")
+        else:
+            ctx.fail(q, "callback with floating-point wrappers did not run normally (%s: %s)" % (q.status, q.info))
+    ctx.expect(paths, ret=2)
+
+
 def jobs(tier, seed):
     src = '#include "verif_sandbox.hpp"\nusing S = B32;\n#include "C20_kernels.inc"\n'
     items = [dict(name="opaque roundtrip " + t, fn=check_opq, kw=dict(tag=t)) for t in OPQ]
@@ -138,6 +159,11 @@ def jobs(tier, seed):
               dict(name="opaque roundtrip struct", fn=check_opq_buf, kw=dict(k="k_opq_struct", n=24))]
     items += [dict(name="invoke " + k, fn=check_inv, kw=dict(k=k)) for k in ("k_inv_tainted_long", "k_inv_opaque_long", "k_inv_tainted_ptr", "k_inv_opaque_ptr")]
     items += [dict(name="cast " + k, fn=check_ptrcast, kw=dict(k=k)) for k in ("k_rc_t", "k_rc_tv", "k_cc_t", "k_cc_tv", "k_sc_ptr_t", "k_sc_ptr_tv")]
-    items += [dict(name="static_cast %s %s" % (t, "tv" if vol else "t"), fn=check_sc, kw=dict(tag=t, vol=vol)) for t in SC for vol in (False, True)]
     items += [dict(name="static_cast " + k, fn=check_enum, kw=dict(k=k)) for k in ("k_sc_enum_from_uint", "k_sc_uint_from_enum")]
-    return [Job("C20_%d" % i, src, items[i::6]) for i in range(6)]
+    out = [Job("C20_%d" % i, src, items[i::6]) for i in range(6)]
+    out.append(Job("C20_noop_cb_fp", '#include "C20_noop.inc"\n', [dict(name="noop callback with opaque double/int/float", fn=check_cb_fp, unwind=300)], flags=["-D_GLIBCXX_EXTERN_TEMPLATE=0"]))
+    for to in SC_TYPES:
+        tags = ["%s_%s" % (to.tag, f.tag) for f in SC_TYPES]
+        ssrc = src + "".join("SC(%s, %s, %s)\n" % (t, SC[t][0].cxx, SC[t][1].cxx) for t in tags)
+        out.append(Job("C20_sc_" + to.tag, ssrc, [dict(name="static_cast %s %s" % (t, "tv" if vol else "t"), fn=check_sc, kw=dict(tag=t, vol=vol)) for t in tags for vol in (False, True)]))
+    return out
